@@ -37,7 +37,7 @@ func Combination(keys []string, meta map[string][]string) string {
 }
 
 func (h *History) refused(c *Caller) bool {
-	return c.Done && c.Err != nil && consumererror.IsPermanent(c.Err) && len(h.Sc.Cfg.Keys) > 0
+	return c.Done && c.Err != nil && consumererror.IsPermanent(c.Err) && noExportErr(c.Err) && len(h.Sc.Cfg.Keys) > 0
 }
 
 // ctxEnded reports whether the request's context ended (cancel step or
@@ -162,7 +162,9 @@ func VerdictC06(h *History) string {
 			if c.Err != nil && !ended {
 				return fmt.Sprintf("request %d: early_return is on but Consume returned %v", c.Req, c.Err)
 			}
-			if !ended && c.DoneAt != c.StartAt {
+			// (with more callers than the shard's channel holds a request is
+			// queued only when a slot frees up: no instant is demanded)
+			if !ended && c.DoneAt != c.StartAt && h.Sc.Chan == 0 {
 				return fmt.Sprintf("request %d: early_return is on but Consume returned at %v, called at %v", c.Req, c.DoneAt, c.StartAt)
 			}
 			continue
@@ -453,12 +455,12 @@ func VerdictC10(h *History, sequential bool) string {
 				return fmt.Sprintf("request %d (combination [%s]) was refused with a non-permanent error: %v", c.Req, combo, c.Err)
 			}
 		}
-		if c.Done && c.Err != nil && consumererror.IsPermanent(c.Err) && exportedOf[c.Req] > 0 {
+		if c.Done && c.Err != nil && consumererror.IsPermanent(c.Err) && noExportErr(c.Err) && exportedOf[c.Req] > 0 {
 			return fmt.Sprintf("request %d was refused (%v) but %d of its items were exported", c.Req, c.Err, exportedOf[c.Req])
 		}
 		if sequential {
 			wantRefused := cfg.Limit > 0 && !seen[combo] && len(seen) >= cfg.Limit
-			gotRefused := c.Done && c.Err != nil && consumererror.IsPermanent(c.Err)
+			gotRefused := c.Done && c.Err != nil && consumererror.IsPermanent(c.Err) && noExportErr(c.Err)
 			if wantRefused != gotRefused {
 				if wantRefused {
 					return fmt.Sprintf("request %d brings combination [%s] when %d are admitted (limit %d) but was not refused (err=%v)", c.Req, combo, len(seen), cfg.Limit, c.Err)
@@ -644,7 +646,7 @@ func VerdictC18(h *History) string {
 		if h.ctxEndedBy(c.Req, c.DoneAt) {
 			continue
 		}
-		if errors.Is(c.Err, context.Canceled) || errors.Is(c.Err, context.DeadlineExceeded) {
+		if (errors.Is(c.Err, context.Canceled) || errors.Is(c.Err, context.DeadlineExceeded)) && noExportErr(c.Err) {
 			return fmt.Sprintf("request %d (context alive) received %v: the cancellation of another caller decided the fate of its items", c.Req, c.Err)
 		}
 		_ = carr
